@@ -85,8 +85,30 @@ func parseText(text string) (p *pipeline.Pipeline, err error) {
 
 // marshalBoth marshals to JSON and YAML and reads both back with the
 // independent readers.
+// safeJSONMarshal / safeYAMLMarshal turn a panic inside the encoders (for
+// example yaml.v3 refusing an inlined map that collides with a struct field)
+// into an error: for the monitors it is the library handing out an object
+// that cannot be marshalled, not a harness failure.
+func safeJSONMarshal(v any) (b []byte, err error) {
+	defer func() {
+		if r := recover(); r != nil {
+			err = fmt.Errorf("panic while marshalling: %v", r)
+		}
+	}()
+	return json.Marshal(v)
+}
+
+func safeYAMLMarshal(v any) (b []byte, err error) {
+	defer func() {
+		if r := recover(); r != nil {
+			err = fmt.Errorf("panic while marshalling: %v", r)
+		}
+	}()
+	return yaml.Marshal(v)
+}
+
 func marshalJSONTree(v any) ([]byte, *doc.Node, error) {
-	b, err := json.Marshal(v)
+	b, err := safeJSONMarshal(v)
 	if err != nil {
 		return nil, nil, fmt.Errorf("json.Marshal: %w", err)
 	}
@@ -98,7 +120,7 @@ func marshalJSONTree(v any) ([]byte, *doc.Node, error) {
 }
 
 func marshalYAMLTree(v any) ([]byte, *doc.Node, error) {
-	b, err := yaml.Marshal(v)
+	b, err := safeYAMLMarshal(v)
 	if err != nil {
 		return nil, nil, fmt.Errorf("yaml.Marshal: %w", err)
 	}
